@@ -251,6 +251,7 @@ def run(ctx):
     region_entries_nonnull(db, rep, "D6b-REGION-NONNULL")
     d7_backing_fresh(db, rep)
     d8_owned_fields_released(db, rep)
+    d9_region_fields_set(db, rep)
 
     # ---- D3 ------------------------------------------------------------------
     cp = db.func("orc_compiler_compile_program", "orccompiler")
@@ -530,4 +531,44 @@ def d8_owned_fields_released(db, rep, rule="D8-CHUNK-RELEASED", destructor="orc_
                   "%s can release the object without releasing `%s` although it is set (the release depends on more than the pointer being non-NULL): "
                   "what it owns - a chunk of code memory - stays allocated for ever, and a bounded working set of compiles and frees makes the number of "
                   "regions grow" % (destructor, path), line=final[-1].line)
+    return n
+
+
+def d9_region_fields_set(db, rep, rule="D9-REGION-FIELDS-SET"):
+    """D9: every way of obtaining code memory (the dual mapping of a temporary file, the anonymous RWX mapping, VirtualAlloc ...)
+    fills the same region descriptor; orc_code_region_new then makes one free chunk of region->size bytes out of it.  On
+    every path to a success return of an orc_code_region_allocate_codemem_* method the three fields the rest of the allocator
+    reads - size, exec_ptr, write_ptr - must have been assigned (sibling agreement).  A method that forgets `size` hands back a
+    region whose only chunk has 0 bytes: nothing ever fits, every compile maps another region and falls back to emulation."""
+    from flow import path_to
+    tu = db.tu("orccodemem")
+    n = 0
+    for f in tu.main_functions():
+        if not f.name.startswith("orc_code_region_allocate_codemem_"):
+            continue
+        reg = [p_["name"] for p_ in f.params if "OrcCodeRegion" in (p_.get("ty") or "")]
+        if not reg:
+            continue
+        rets = [r for r in f.walk() if r.k == "ReturnStmt" and r.c and r.c[0] is not None and strip_casts(r.c[0]).v not in (0, None)]
+        rets += [r for r in f.walk() if r.k == "ReturnStmt" and r.c and r.c[0] is not None and strip_casts(r.c[0]).v is None and strip_casts(r.c[0]).k == "DeclRefExpr"]
+        if not rets:
+            continue
+        n += 1
+        rep.saw(f)
+        missing = []
+        for fld in ("size", "exec_ptr", "write_ptr"):
+            path = "%s->%s" % (reg[0], fld)
+            for r in rets:
+                if strip_casts(r.c[0]).v is None:
+                    continue                # `return ret;`: judged through the constant success returns of the siblings
+                wit = path_to(f, r, lambda e, path=path: e.k == "BinaryOperator" and e.op == "=" and (access_path(e.c[0]) == path or any(
+                    y.k == "BinaryOperator" and y.op == "=" and access_path(y.c[0]) == path for y in e.walk())))
+                if wit is not None and fld not in missing:
+                    missing.append(fld)
+        rep.check(not missing, rule, where(f), f.name,
+                  "size, exec_ptr and write_ptr are assigned on every path to a success return",
+                  "%s can return success without having set region->%s: orc_code_region_new builds the region's free chunk from these fields - with size 0 "
+                  "nothing ever fits, each compile maps and registers one more region and silently runs emulated" % (f.name, ", region->".join(missing)), line=f.line)
+    if n < 2:
+        raise AnalysisBroken("only %d code-memory methods found in orccodemem.c" % n)
     return n
